@@ -21,7 +21,7 @@ import universe as U
 from lib import gz, gtext, glist, gbool, gopt, gpair
 
 THEOREMS = ['C16_shape_src', 'C16_extends_partial', 'C16_extends_refuted', 'C16_flat_fields', 'C16_flat_override', 'C16_registry_subclasses',
-            'C16_xml_poly_rt', 'C16_xml_marker_resolves', 'C16_xml_mono', 'C16_xml_marker_sound',
+            'C16_subclasses_closure', 'C16_xml_poly_rt', 'C16_xml_marker_resolves', 'C16_xml_mono', 'C16_xml_marker_sound',
             'C16_xsi_target_src', 'C16_xsi_target_spec',
             'C16_hier_poly_rt', 'C16_hier_mono', 'C16_hier_marker_sound',
             'C16_xml_poly_rt_spyne', 'C16_hier_poly_rt_spyne']
@@ -140,9 +140,10 @@ def gen_tree(rng, override=False):
         root = add('B%d' % h, ns, None, [prim_f() for _ in range(0 if (override and rng.random() < 0.3) else rng.randint(1, 3))])
         hier_roots.append(root)
         members, depth = [root], {root: 1}
-        for s in range(rng.randint(1, 4)):
-            p = rng.choice(members)
-            if depth[p] >= 3:
+        for s in range(rng.randint(1, 6)):
+            # half of the time the newest class is extended, so that chains of depth 4-6 below the root occur
+            p = members[-1] if rng.random() < 0.5 else rng.choice(members)
+            if depth[p] >= 6:
                 p = root
             own = [prim_f() for _ in range(rng.choice([0, 1, 1, 2]))]
             r = rng.random()
@@ -454,7 +455,9 @@ def model_ty_of_class(app, cls):
 # ------------------------------------------------------------------ correspondence: flattened type info
 def corr_flat(check, desc, b, app, prelude, tag):
     cases = []
-    for cid, cls in enumerate(app._c16_classes):
+    order = list(enumerate(app._c16_classes))
+    check.rng.shuffle(order)
+    for cid, cls in order:
         r = observe(lambda: list(cls.get_flat_type_info(cls).items()))
         if r[0] != 'ok':
             check.mismatch('flat', '%s class %d: get_flat_type_info raised %r' % (tag, cid, r))
@@ -603,6 +606,24 @@ def rebuild_with_nsmap(e, extra):
     return n
 
 
+def markers_through_default_ns(root, msg):
+    """rewrites every prefixed xsi:type below msg into the unprefixed form resolved through a default
+    namespace declared on the element itself (<x xmlns="ns" xsi:type="Local">): legal, and what a peer
+    may send although Spyne never writes it.  Innermost elements first, because rebuilding an element
+    moves its children.  Returns the new document root."""
+    marked = [e for e in msg.iter() if isinstance(e.tag, str) and e.get(XSI_TYPE) is not None and ':' in e.get(XSI_TYPE)]
+    for e in reversed(marked):
+        p, local = e.get(XSI_TYPE).split(':', 1)
+        ns = e.nsmap.get(p)
+        if ns is None:
+            continue
+        e.set(XSI_TYPE, local)
+        e2 = rebuild_with_nsmap(e, {None: ns})
+        if e is root:
+            root = e2
+    return root
+
+
 def mutate_xml(rng, desc, root, msg):
     """one mutation below the message element `msg` of the parsed document `root` (msg is root for
     XmlDocument, the child of Body for SOAP); returns (new_root, description) or (root, None)"""
@@ -742,6 +763,10 @@ def corr_xml(check, desc, b, prelude_for, tag, tier, forced=()):
                     if poly or rng.random() < 0.3:
                         base = payload(proto, docs[0])
                         variants = [(base, 'as written')]
+                        if real_marks(base):
+                            t2 = copy.deepcopy(docs[0])
+                            t2 = markers_through_default_ns(t2, payload(proto, t2))
+                            variants.append((payload(proto, parse_xml(etree.tostring(t2))), 'all markers through default namespaces'))
                         for _ in range(3 if tier == 'quick' else 6):
                             t2 = copy.deepcopy(docs[0])
                             t2, what = mutate_xml(rng, desc, t2, payload(proto, t2))
@@ -1234,6 +1259,45 @@ def non_subclass_names(desc, decl):
     return [c['name'] for i, c in enumerate(desc['classes'][:desc['n_user']]) if i not in subs and c['ns'] == ns]
 
 
+def oracle_default_ns(check, desc, b, mi, v, proto, report=True):
+    """the same request as a peer may write it: every type marker unprefixed, resolved through a default
+    namespace declared on the element.  It must reach user code as the same object."""
+    from lxml import etree
+    m = desc['methods'][mi]
+    app = get_app(desc, b, proto, True)
+    full = app._c16_classes
+    dd = {'classes': desc['classes']}
+    lb = Loopback(app)
+    del b.captured[:]
+    r = observe(lb.call, m['name'], U.to_native(dd, full, v))
+    if r[0] != 'ok' or not lb.trace:
+        return []
+    doc = parse_xml(lb.trace[0])
+    if not real_marks(payload(proto, doc)):
+        return []
+    doc = markers_through_default_ns(doc, payload(proto, doc))
+    raw = etree.tostring(doc)
+    marks = real_marks(payload(proto, parse_xml(raw)))
+    if any(x is None for x in marks) or marks != expected_marks(dd, ('ref', m['in']), ('obj', m['in'], [v])):
+        return []            # the rewriting itself lost a declaration: not a document a peer would send
+    del b.captured[:]
+    lb.serve(raw)
+    ORACLE['default_ns'] = ORACLE.get('default_ns', 0) + 1
+    fails = []
+    want = norm_value(dd, v)
+    got = [norm_value(dd, U.from_native(dd, full, x)) for x in b.captured]
+    if lb.last_error is not None or got != [want]:
+        fails.append(('C16|%s|default-namespace-marker|%s' % (family(proto), 'refused' if lb.last_error is not None else 'object'),
+                      'a request whose type markers are unprefixed and resolve through a default namespace declared on the '
+                      'element was %s: %s (error %r, user code received %r, expected %r)'
+                      % ('refused' if lb.last_error is not None else 'misread', raw.decode('utf8', 'replace')[:500],
+                         lb.last_error, got, want)))
+    if report:
+        for key, what in fails:
+            report_fail(check, key, what, {'kind': 'default-ns', 'program': desc, 'method': mi, 'value': v, 'protocol': proto})
+    return fails
+
+
 def oracle_negative(check, desc, b, mi, v, proto, report=True):
     """a type marker that names an unknown class or a class that is not a subclass of the declared
     one must be refused, and user code must not run"""
@@ -1310,6 +1374,8 @@ def oracle_program(check, desc, b, tier, fixed=None):
                     check.count(('oracle', proto, poly, json.dumps(desc, sort_keys=True), repr(v)))
                 if fixed is not None or rng.random() < 0.5:
                     oracle_negative(check, desc, b, mi, v, proto)
+                if proto in XML_PROTOS and (fixed is not None or rng.random() < 0.5):
+                    oracle_default_ns(check, desc, b, mi, v, proto)
     return ran
 
 
@@ -1421,6 +1487,51 @@ def cross_namespace_program():
     vals = [(0, bv), (1, ('list', [bv, bv]))]
     forced = [(0, gv), (0, fv), (1, ('list', [gv, bv, fv]))]
     return desc, vals, forced
+
+def deep_chain_program(depth=5):
+    """K0 <- K1 <- ... <- K<depth> in one namespace (K2 has no members of its own), a slot declared at every
+    ancestor and an Array(K0) slot; instances of every depth at every slot"""
+    P = lambda p: ('prim', p)
+    classes = []
+    for i in range(depth + 1):
+        classes.append({'ns': 'urn:b', 'name': 'K%d' % i, 'parent': None if i == 0 else i - 1,
+                        'fields': [] if i == 2 else [_f('k%d' % i, P(U.PRIMS[i % 3]))]})
+    decls = [(('ref', i), 0, True, i % 2 == 0) for i in range(depth)] + [(('arr', ('ref', 0)), 0, True, True)]
+    desc = _prog('urn:a', classes, decls)
+
+    def inst(j):
+        vals = []
+        for f in U.flat_fields({'classes': classes}, j):
+            p = f['ty'][1]
+            vals.append(('int', j) if p == 'int' else ('text', 'k%d' % j) if p == 'text' else ('bool', j % 2 == 0))
+        return ('obj', j, vals)
+    vals = [(i, inst(j)) for i in range(depth) for j in range(i, depth + 1)]
+    vals.append((depth, ('list', [inst(j) for j in range(depth, -1, -1)])))
+    return desc, vals
+
+
+def probe_subclass_first(check):
+    """the flattened type info of the deepest subclass is computed before that of its bases (first use of
+    the program: a Leaf where Base is declared, polymorphic=True), then the bases are projected
+    (polymorphic=False): nothing the subclass's computation did may show in the base's members"""
+    P = lambda p: ('prim', p)
+    desc = _prog('urn:a', [{'ns': 'urn:b', 'name': 'Base', 'parent': None, 'fields': [_f('a', P('int'))]},
+                           {'ns': 'urn:b', 'name': 'Mid', 'parent': 0, 'fields': [_f('b', P('text'))]},
+                           {'ns': 'urn:b', 'name': 'Leaf', 'parent': 1, 'fields': [_f('c', P('int'))]}],
+                 [(('ref', 0), 0, True, True), (('ref', 1), 0, True, True), (('arr', ('ref', 0)), 0, True, True)])
+    leaf = ('obj', 2, [('int', 1), ('text', 'm'), ('int', 3)])
+    mid = ('obj', 1, [('int', 4), ('text', 'n')])
+    base = ('obj', 0, [('int', 5)])
+    for first in DICT_PROTOS[:1] + XML_PROTOS[:1]:
+        b = build(desc)          # fresh classes: nothing memoised yet
+        order = [(0, leaf, first, True)]
+        for proto in XML_PROTOS + DICT_PROTOS:
+            order += [(0, leaf, proto, False), (1, leaf, proto, False), (0, mid, proto, False), (0, base, proto, True),
+                      (2, ('list', [leaf, mid, base]), proto, False), (2, ('list', [leaf, mid, base]), proto, True)]
+        for mi, v, proto, poly in order:
+            oracle_case(check, desc, b, mi, v, proto, poly, tag='subclass-first:' + first)
+            check.count(('subclass-first', first, proto, poly, mi, repr(v)))
+
 
 # ------------------------------------------------------------------ growing hierarchies (oracle only)
 def extend_program(desc, b, new):
@@ -1645,7 +1756,10 @@ def run(check):
                   'valid and mutated documents (wrapper key renamed, doubled, emptied, replaced). Direct oracle: every value '
                   'through a loopback client and ServerBase for six protocols x polymorphic on/off (objects received by user '
                   'code and by the client, type markers, member order and member set of both documents), and requests whose '
-                  'marker names an unknown / unrelated class; declared types customised twice (P.customize().customize(), '
+                  'marker names an unknown / unrelated class, and requests rewritten as a peer may send them (markers unprefixed, '
+                  'resolved through a default namespace); a fixed chain K0..K5 with a slot declared at every ancestor and instances '
+                  'of every depth at every slot (generated chains reach depth 6); the flattened type info of a subclass computed '
+                  'before its bases\' (first use), then polymorphic=False projections; declared types customised twice (P.customize().customize(), '
                   'Array(P.customize()), Array(Mandatory(P))) holding subclass instances; growing hierarchies: a tree is used '
                   'through all six protocols, further subclasses are then defined below a root, a middle class and a leaf '
                   '(no customize()/Array() in between), and instances of the new classes are sent where the old bases are '
@@ -1692,6 +1806,9 @@ def run(check):
     check.prove('Props.C16', THEOREMS)
     for name, desc, vals in corpus():
         run_program(check, desc, 'corpus %s' % name, tier, fixed=vals)
+    desc, vals = deep_chain_program(5)
+    run_program(check, desc, 'corpus deep-chain', tier, fixed=vals)
+    probe_subclass_first(check)
     desc, vals, forced = cross_namespace_program()
     run_program(check, desc, 'corpus cross-namespace-chain', tier, fixed=vals, forced=forced)
     n_prog = 6 if tier == 'quick' else 40
@@ -1725,7 +1842,7 @@ def replay(check, path):
     rp = r.get('replay', {})
     print('property %s  key %s' % (r.get('property'), r.get('key')))
     print('recorded: %s' % r.get('what', '')[:1500])
-    if rp.get('kind') not in ('roundtrip', 'negative', 'growing'):
+    if rp.get('kind') not in ('roundtrip', 'negative', 'growing', 'default-ns'):
         print(json.dumps(rp, indent=1)[:3000])
         return 0
     desc = rp['program']
@@ -1748,7 +1865,9 @@ def replay(check, path):
             print('replay: the case passes on this tree')
         return 1 if fails else 0
     b = build(desc)
-    if rp['kind'] == 'roundtrip':
+    if rp['kind'] == 'default-ns':
+        fails = oracle_default_ns(check, desc, b, rp['method'], v, rp['protocol'], report=False)
+    elif rp['kind'] == 'roundtrip':
         fails = oracle_case(check, desc, b, rp['method'], v, rp['protocol'], rp['polymorphic'], report=False)
     else:
         fails = [(k, w) for k, w, _ in oracle_negative(check, desc, b, rp['method'], v, rp['protocol'], report=False)]
